@@ -434,7 +434,7 @@ Theorem step_tinv : forall s tr l s' ev, Inv s -> TInv s tr -> step s l = Some (
 Proof.
   intros s tr l s' ev HI T Hst. pose proof (step_inv s l s' ev HI Hst) as HI'.
   destruct HI as [I [U W]]. destruct HI' as [I' [U' W']].
-  destruct l as [c|c m|t|t|t|c|c|c| | | | ]; cbn [step] in Hst.
+  destruct l as [c|c m|t|t|t|c|c|c| | | | |c m]; cbn [step] in Hst.
   - (* LRegister *)
     destruct (in_unreg s c); [discriminate|]. destruct (lmem c (s_cl s)); injection Hst as <- <-;
       apply (same_obs_tinv s); auto using silent_nil; intros c'; apply same_tables_obs; reflexivity.
@@ -504,6 +504,9 @@ Proof.
     eapply tinv_silent; eauto.
     + intros H. congruence.
     + intros c'. unfold runhead, opencall, worker. now rewrite A10.
+  - (* LSubmitStale *)
+    destruct (in_unreg s c); [discriminate|]. destruct (lmem c (s_cl s)); [discriminate|]. destruct (s_sd s); try discriminate.
+    destruct (pool_send s c m) as [s1 r] eqn:Hs. injection Hst as <- <-. eapply send_tinv; eauto. unfold Inv; auto.
 Qed.
 
 Theorem reach_tinv : forall n s tr, reach n s tr -> TInv s tr.
